@@ -17,12 +17,22 @@ _is_state = z3.Function("sa_is_state_name", z3.StringSort(), z3.BoolSort())
 _dash = z3.Function("dashboard_value", z3.StringSort(), Ref)
 _num = z3.Function("numeric_value", Ref, z3.RealSort())
 SPEC_FUNCS = {
+    "member": lambda n: vref(_member(n.z), ST), "STATE_CLS": lambda: vref(_STATE_CLS, "PyObj"),
+    "T_BOOL": lambda: vref(z3.Const("class.builtins.bool", Ref), "PyObj"), "T_INT": lambda: vref(z3.Const("class.builtins.int", Ref), "PyObj"),
+    "T_FLOAT": lambda: vref(z3.Const("class.builtins.float", Ref), "PyObj"), "T_STR": lambda: vref(z3.Const("class.builtins.str", Ref), "PyObj"),
     "state_of": lambda n: vref(_state_of(n.z), ST),
     "is_state": lambda n: vbool(_is_state(n.z)),
     "dash": lambda n: vref(_dash(n.z), "PyObj"),
     "num": lambda r: vreal(_num(r.z)),
 }
+GLOBALS = {"g_cdir": "Seq[Str]"}
+_member = z3.Function("sa_class_member", z3.StringSort(), Ref)
+_STATE_CLS = z3.Const("class._State", Ref)
 MACROS = {
+    "is_member_state(n)": "member(n) is not None and isinstance(member(n), STATE_CLS())",
+    "sdkey(m, name, pre)": "(m.MODE_NAME + '\\\\' + name) if pre else name",
+    "sdtyped(v)": "isinstance(v, T_BOOL()) or isinstance(v, T_INT()) or isinstance(v, T_FLOAT()) or isinstance(v, T_STR())",
+    "sdkind(v)": "0 if isinstance(v, T_BOOL()) else (1 if (isinstance(v, T_INT()) or isinstance(v, T_FLOAT())) else 2)",
     "CUR(m)": "m._StatefulAutonomous__state",
     "timed(s)": "has_attr(s, 'next_state')",
     "expired0(m, tm)": "old(CUR(m)) is not None and old(old(CUR(m)).ran) and old(old(CUR(m)).expires) < tm",
@@ -30,11 +40,11 @@ MACROS = {
 CLASSES = {
     "PyObj": {"fields": {}},
     ST: {"fields": {"name": "Str", "ran": "Bool", "expires": "Real", "start_time": "Real", "?next_state": "Bool",
-                    "next_state": "Opt[Str]"}},
+                    "next_state": "Opt[Str]", "first": "Bool", "?duration": "Bool", "duration": "Ref:PyObj", "description": "Opt[Str]", "serial": "Int"}},
     SA: {
         "fields": {"_StatefulAutonomous__state": f"Ref:{ST}", "_StatefulAutonomous__done": "Bool", "_StatefulAutonomous__built": "Bool",
                    "_StatefulAutonomous__first": "Str", "_StatefulAutonomous__sd_args": "Seq[(Str,Str,Ref:SDGetter,Ref:PyObj)]",
-                   "battery_voltage": "Real", "g_attrs": "Map[Str,Ref:PyObj]", "g_last_tm": "Real", "g_runs": "Int"},
+                   "battery_voltage": "Real", "g_attrs": "Map[Str,Ref:PyObj]", "g_last_tm": "Real", "g_runs": "Int", "MODE_NAME": "Str", "_StatefulAutonomous__table": "Ref:SDTable"},
         "alias": {"st": "CUR(self)", "first": "self._StatefulAutonomous__first", "sdargs": "self._StatefulAutonomous__sd_args"},
         "wf": {
             "W1 the first state exists": "is_state(first)",
@@ -52,7 +62,9 @@ CLASSES = {
             "S3 tm is non-negative": "self.g_last_tm >= 0",
         },
     },
-    "SDGetter": {"fields": {}},
+    "SDGetter": {"fields": {"table": "Ref:SDTable", "kind": "Int"},       # kind: 0 getBoolean, 1 getNumber, 2 getString
+                 "callable_of": {"methods": {"SDTable.getBoolean": 0, "SDTable.getNumber": 1, "SDTable.getString": 2}, "link": "table", "tag": "kind"}},
+    "SDTable": {"fields": {"g_put": "Map[Str,Ref:PyObj]"}},
 }
 _CB_MOD = [f"{SA}._StatefulAutonomous__state[*]", f"{ST}.ran[*]", f"{SA}.g_runs[*]"]
 CONTRACTS = {
@@ -78,6 +90,60 @@ CONTRACTS = {
         "kind": "external", "params": {"sd_name": "Str", "default": "Ref:PyObj"}, "returns": "Ref:PyObj",
         "ensures": {"the dashboard value under that key": "result is dash(sd_name)"},
         "note": "table.getNumber/getBoolean/getString(sd_name, default): ntcore read (assumed; the dashboard content is a function of the key during on_enable)",
+    },
+    "SDTable.putBoolean": {"kind": "external", "params": {"key": "Str", "value": "Ref:PyObj"}, "modifies": ["self.g_put"],
+                          "ensures": {"published": "has(self.g_put, key) and self.g_put[key] is value and forall(k, Str, implies(k != key, has(self.g_put, k) == old(has(self.g_put, k)) and self.g_put[k] is old(self.g_put[k])))"}, "note": "ntcore NetworkTable.putBoolean"},
+    "SDTable.getBoolean": {"kind": "external", "params": {"key": "Str", "default": "Ref:PyObj"}, "returns": "Ref:PyObj", "ensures": {"the dashboard value": "result is dash(key)"}, "note": "ntcore NetworkTable.getBoolean"},
+    "SDTable.putNumber": {"kind": "external", "params": {"key": "Str", "value": "Ref:PyObj"}, "modifies": ["self.g_put"],
+                          "ensures": {"published": "has(self.g_put, key) and self.g_put[key] is value and forall(k, Str, implies(k != key, has(self.g_put, k) == old(has(self.g_put, k)) and self.g_put[k] is old(self.g_put[k])))"}, "note": "ntcore NetworkTable.putNumber"},
+    "SDTable.getNumber": {"kind": "external", "params": {"key": "Str", "default": "Ref:PyObj"}, "returns": "Ref:PyObj", "ensures": {"the dashboard value": "result is dash(key)"}, "note": "ntcore NetworkTable.getNumber"},
+    "SDTable.putString": {"kind": "external", "params": {"key": "Str", "value": "Ref:PyObj"}, "modifies": ["self.g_put"],
+                          "ensures": {"published": "has(self.g_put, key) and self.g_put[key] is value and forall(k, Str, implies(k != key, has(self.g_put, k) == old(has(self.g_put, k)) and self.g_put[k] is old(self.g_put[k])))"}, "note": "ntcore NetworkTable.putString"},
+    "SDTable.getString": {"kind": "external", "params": {"key": "Str", "default": "Ref:PyObj"}, "returns": "Ref:PyObj", "ensures": {"the dashboard value": "result is dash(key)"}, "note": "ntcore NetworkTable.getString"},
+    f"{SA}._StatefulAutonomous__register_sd_var_internal": {
+        "source": f"{SA}.__register_sd_var_internal", "receivers": [SA], "params": {"name": "Str", "default": "Ref:PyObj", "add_prefix": "Bool", "readback": "Bool"}, "returns": "Bool", "raises": "ValueError",
+        "requires": {"constructed far enough": "self._StatefulAutonomous__table is not None"},
+        "modifies": ["self._StatefulAutonomous__sd_args", "self._StatefulAutonomous__table.g_put", "SDGetter.table[*]", "SDGetter.kind[*]"],
+        "ensures": {
+            "C15.V1 the variable is published with its default under '<MODE_NAME>\\<name>' (add_prefix) or '<name>'":
+                "has(self._StatefulAutonomous__table.g_put, sdkey(self, name, add_prefix)) and self._StatefulAutonomous__table.g_put[sdkey(self, name, add_prefix)] is default",
+            "C15.V2 with readback it is registered for on_enable as (attribute name, that key, the getter matching the default's type, default), after the entries registered before":
+                "(len(sdargs) == old(len(sdargs)) + 1 and sdargs[len(sdargs) - 1][0] == name and sdargs[len(sdargs) - 1][1] == sdkey(self, name, add_prefix) and sdargs[len(sdargs) - 1][3] is default and "
+                "sdargs[len(sdargs) - 1][2] is not None and sdargs[len(sdargs) - 1][2].table is self._StatefulAutonomous__table and sdargs[len(sdargs) - 1][2].kind == sdkind(default)) if readback else (len(sdargs) == old(len(sdargs)))",
+            "earlier registrations are kept": "forall(j, Int, implies(0 <= j and j < old(len(sdargs)), sdargs[j][0] == old(sdargs[j][0]) and sdargs[j][1] == old(sdargs[j][1]) and sdargs[j][2] is old(sdargs[j][2]) and sdargs[j][3] is old(sdargs[j][3])))",
+            "number?": "result == (not isinstance(default, T_BOOL()) and (isinstance(default, T_INT()) or isinstance(default, T_FLOAT())))",
+            "accepted": "not (' ' in name) and sdtyped(default)"},
+        "ensures_raise": {"C15.V3 rejected exactly for a name with a space or a default that is not bool / int / float / str": "(' ' in name) or not sdtyped(default)",
+                          "nothing registered": "len(sdargs) == old(len(sdargs))"},
+    },
+    "sa.dir": {"kind": "external", "params": {"cls": "py"}, "returns": "Seq[Str]", "pure_result": "g_cdir",
+               "ensures": {"attribute names, each once": "len(result) >= 0 and forall(a, Int, forall(b, Int, implies(0 <= a and a < b and b < len(result), result[a] != result[b])))"}, "note": "dir(type(self)) (reflection)"},
+    "sa.member": {"kind": "external", "params": {"cls": "py", "name": "Str"}, "returns": f"Ref:{ST}", "ensures": {"class attribute": "result is member(name)"}, "note": "getattr(cls, name): any class attribute; only _State instances are used"},
+    "sa.sorted_items": {"kind": "external", "params": {"d": "py"}, "returns": "py", "ensures": {}, "note": "sorted(states.items()): only passed on to the dashboard lists"},
+    "sa.names_of": {"kind": "external", "params": {"xs": "py"}, "returns": "py", "ensures": {}, "note": "[name for _, (name, desc) in sorted_states] (list comprehension: dashboard list of state names in definition order)"},
+    "sa.descs_of": {"kind": "external", "params": {"xs": "py"}, "returns": "py", "ensures": {}, "note": "[desc for _, (name, desc) in sorted_states]"},
+    "SDTable.putStringArray": {"kind": "external", "params": {"key": "Str", "value": "py"}, "ensures": {}, "note": "ntcore"},
+    f"{SA}.__build_states": {
+        "receivers": [SA], "params": {}, "raises": "ValueError", "no_wf": True, "prefer": "cvc5",
+        "requires": {"constructed far enough (__init__ created the table and the empty registration list)": "self._StatefulAutonomous__table is not None and len(sdargs) >= 0"},
+        "local_sorts": {"states": "Map[Int,(Str,Opt[Str])]"},
+        "modifies": ["self._StatefulAutonomous__first", "self._StatefulAutonomous__built", f"{SA}._StatefulAutonomous__sd_args[*]", "SDTable.g_put[*]", "SDGetter.table[*]", "SDGetter.kind[*]"],
+        "loops": {0: {"inv": {
+            "C15.B1 (so far) at most one state marked first was seen, and it is remembered": "(has_first == exists(j, Int, 0 <= j and j < __i and is_member_state(g_cdir[j]) and member(g_cdir[j]).first)) and "
+                "forall(a, Int, forall(b, Int, implies(0 <= a and a < b and b < __i and is_member_state(g_cdir[a]) and is_member_state(g_cdir[b]), not (member(g_cdir[a]).first and member(g_cdir[b]).first)))) and "
+                "implies(has_first, exists(j, Int, 0 <= j and j < __i and is_member_state(g_cdir[j]) and member(g_cdir[j]).first and self._StatefulAutonomous__first == g_cdir[j]))",
+            "C15.B2 (so far) every state seen that declares a duration has its '<state>_duration' variable registered for on_enable under '<MODE_NAME>\\<state>_duration'":
+                "forall(j, Int, implies(0 <= j and j < __i and is_member_state(g_cdir[j]) and has_attr(member(g_cdir[j]), 'duration'), "
+                "exists(a, Int, 0 <= a and a < len(sdargs) and sdargs[a][0] == member(g_cdir[j]).name + '_duration' and sdargs[a][1] == sdkey(self, member(g_cdir[j]).name + '_duration', True) and sdargs[a][2] is not None)))",
+            "registrations only grow": "len(sdargs) >= at_loop_entry(len(sdargs)) and at_loop_entry(len(sdargs)) >= 0",
+        }}},
+        "ensures": {
+            "C15.B1 exactly one state is marked first, and on_enable will start from it": "self._StatefulAutonomous__built and exists(j, Int, 0 <= j and j < len(g_cdir) and is_member_state(g_cdir[j]) and member(g_cdir[j]).first and self._StatefulAutonomous__first == g_cdir[j]) and "
+                "forall(a, Int, forall(b, Int, implies(0 <= a and a < b and b < len(g_cdir) and is_member_state(g_cdir[a]) and is_member_state(g_cdir[b]), not (member(g_cdir[a]).first and member(g_cdir[b]).first))))",
+            "C15.B2 every state that declares a duration has its '<state>_duration' variable registered for on_enable under '<MODE_NAME>\\<state>_duration'":
+                "forall(j, Int, implies(0 <= j and j < len(g_cdir) and is_member_state(g_cdir[j]) and has_attr(member(g_cdir[j]), 'duration'), "
+                "exists(a, Int, 0 <= a and a < len(sdargs) and sdargs[a][0] == member(g_cdir[j]).name + '_duration' and sdargs[a][1] == sdkey(self, member(g_cdir[j]).name + '_duration', True))))"},
+        "ensures_raise": {"C15.B3 ValueError for no first state, several first states, or a duration that is not a number/bool/str": "True"},
     },
     "wpilib.DriverStation.getBatteryVoltage": {"kind": "external", "params": {}, "returns": "Real", "ensures": {}},
     f"{ST}.run": {
@@ -128,7 +194,11 @@ CONTRACTS = {
                     "C15.I2 when the last state has expired nothing runs and no state remains": "implies(old(st) is not None and old(st.ran) and old(st.expires) < tm and old(st).next_state is None, self.g_runs == old(self.g_runs) and st is None)"},
     },
 }
-DYN_GETATTR = {(f"{SA}.next_state", "getattr"): "sa.class_attr", (f"{SA}.on_iteration", "getattr"): "sa.inst_attr",
+NAMES = {"dir": ("contract", "sa.dir")}
+CALL_OVERRIDES = {(f"{SA}.__build_states", "sorted"): "sa.sorted_items"}
+EXPR_OVERRIDES = {(f"{SA}.__build_states", "[name for _, (name, desc) in sorted_states]"): ("sa.names_of", ["sorted_states"]),
+                  (f"{SA}.__build_states", "[desc for _, (name, desc) in sorted_states]"): ("sa.descs_of", ["sorted_states"])}
+DYN_GETATTR = {(f"{SA}.__build_states", "getattr"): "sa.member", (f"{SA}.next_state", "getattr"): "sa.class_attr", (f"{SA}.on_iteration", "getattr"): "sa.inst_attr",
                (f"{SA}.on_enable", "setattr"): "sa.setattr"}
 
 
